@@ -15,11 +15,12 @@
     classenv = L<n> <class>…   (children first)
     class    = L7 <id:S> <module:S> <name:S> L<n> <base id:S>… <own slots: L<n> S… | N> <kind> <class attrs: M…>
     kind     = L2 Sbean M<n> <stored name:S> <value>… | L6 Sserial <method:S> <byDict:T|F> L<n> S… L<n> S… M<n> <base attr:S> <value>…
-             | L2 Senum M<n> <member name:S> <value>… | L1 Sdecimal
+             | L2 Senum M<n> <member name:S> <value>… | L1 Sdecimal | L2 Sraising <exception class:S>
 
   Handler ids understood by the driver (the theorems hold for every interpretation; the harness registers
   Python functions with the same behaviour): 0 ↦ "H0"; 1 ↦ [type name, serialize_method, ignore_attribute,
-  ignore]; 2 raises ValueError; 3 ↦ 7.
+  ignore]; 2 raises ValueError; 3 ↦ 7; 4 ↦ None; 5 ↦ []; 6 ↦ the tuple (type name, 0); 7 ↦ the object itself
+  (not dumped again); 8 ↦ "".
 -/
 import JRV.Driver.Codec
 import JRV.Model.JsonClass
@@ -47,6 +48,7 @@ def kind? : PyVal → Option Kind
     pure (Kind.serial m b ps as base)
   | .list [.str "enum", .dict ms] => (strFields? ms).map Kind.enum
   | .list [.str "decimal"] => some Kind.decimal
+  | .list [.str "raising", .str exc] => some (Kind.raising exc)
   | _ => none
 
 def classDef? : PyVal → Option (String × ClassDef)
@@ -89,6 +91,11 @@ def driverH : Nat → HandlerFn
   | 1 => fun v sm ia ig => pure (.list [.str v.typeName, .str sm, .str ia, .list ig])
   | 2 => fun _ _ _ _ => raise "ValueError"
   | 3 => fun _ _ _ _ => pure (.int 7)
+  | 4 => fun _ _ _ _ => pure .none
+  | 5 => fun _ _ _ _ => pure (.list [])
+  | 6 => fun v _ _ _ => pure (.tuple [.str v.typeName, .int 0])
+  | 7 => fun v _ _ _ => pure v
+  | 8 => fun _ _ _ _ => pure (.str "")
   | _ => fun _ _ _ _ => raise "Unmodelled" (.str "handler id")
 
 def jcdumpC (toks : List String) : String :=
